@@ -65,7 +65,7 @@ func c14List(k *h.Case, g *spec.Gen, movement bool, maxLen, depth int, allowBig 
 			}
 			if r.IntN(8) == 0 {
 				// a constant (defined at the top of the file); LAST_ITEM expands to the terminator
-				e.Name = []string{"$LAST_ITEM", "$SHOP_ITEM_A", "$SHOP_ITEM_B"}[r.IntN(3)]
+				e.Name = []string{"$LAST_ITEM", "$SHOP_ITEM_A", "$SHOP_ITEM_B", "$SHOP_EXPR"}[r.IntN(4)]
 			}
 		}
 		es = append(es, e)
@@ -101,8 +101,10 @@ func runC14(ctx *h.Ctx) int {
 		prog.Items = append(prog.Items,
 			&spec.Const{ID: prog.NewID(), Name: "LAST_ITEM", Value: []string{"ITEM_NONE"}},
 			&spec.Const{ID: prog.NewID(), Name: "SHOP_ITEM_A", Value: []string{"ITEM_ESCAPE_ROPE"}},
-			&spec.Const{ID: prog.NewID(), Name: "SHOP_ITEM_B", Value: []string{"$SHOP_ITEM_A"}})
-		constVal := map[string]string{"$LAST_ITEM": "ITEM_NONE", "$SHOP_ITEM_A": "ITEM_ESCAPE_ROPE", "$SHOP_ITEM_B": "ITEM_ESCAPE_ROPE"}
+			&spec.Const{ID: prog.NewID(), Name: "SHOP_ITEM_B", Value: []string{"$SHOP_ITEM_A"}},
+			// a constant of several tokens is still ONE item
+			&spec.Const{ID: prog.NewID(), Name: "SHOP_EXPR", Value: []string{"ITEMS_START", "+", "2"}})
+		constVal := map[string]string{"$LAST_ITEM": "ITEM_NONE", "$SHOP_ITEM_A": "ITEM_ESCAPE_ROPE", "$SHOP_ITEM_B": "ITEM_ESCAPE_ROPE", "$SHOP_EXPR": "ITEMS_START + 2"}
 		n := 1 + k.R.IntN(3)
 		var script *spec.Script
 		for i := 0; i < n; i++ {
